@@ -23,7 +23,7 @@ def adapters():
     from ..envs.cvrptw import CVRPTW
     from ..envs.op import OP
 
-    out = _base_adapters()
+    out = [a for a in _base_adapters() if a.name != "op"]
     for cls in (OP, CVRPTW):
         a = cls()
         a.tag = a.name
